@@ -27,6 +27,9 @@ type parseContext struct {
 	caseInsensitive   map[lexer.TokenType]bool
 	apply             []*contextFieldSet
 	allowTrailing     bool
+	// Raw cursor of the first token matched since the innermost enclosing capture began (-1: none yet).
+	// Elided tokens that were merely skipped in front of it do not belong to the capture.
+	firstMatch lexer.RawCursor
 }
 
 func newParseContext(lex *lexer.PeekingLexer, lookahead int, caseInsensitive map[lexer.TokenType]bool) parseContext {
@@ -34,6 +37,14 @@ func newParseContext(lex *lexer.PeekingLexer, lookahead int, caseInsensitive map
 		PeekingLexer:    *lex,
 		caseInsensitive: caseInsensitive,
 		lookahead:       lookahead,
+		firstMatch:      -1,
+	}
+}
+
+// matched records that the token at "cursor" was matched by a terminal.
+func (p *parseContext) matched(cursor lexer.RawCursor) {
+	if p.firstMatch < 0 {
+		p.firstMatch = cursor
 	}
 }
 
@@ -67,6 +78,9 @@ func (p *parseContext) Apply() error {
 func (p *parseContext) Accept(branch *parseContext) {
 	p.apply = append(p.apply, branch.apply...)
 	p.PeekingLexer = branch.PeekingLexer
+	if p.firstMatch < 0 {
+		p.firstMatch = branch.firstMatch
+	}
 	if branch.deepestErrorDepth >= p.deepestErrorDepth {
 		p.deepestErrorDepth = branch.deepestErrorDepth
 		p.deepestError = branch.deepestError
